@@ -8,7 +8,8 @@ for sid in sorted(os.listdir(os.path.join(VERIF, "seeded")), key=lambda s: (s.sp
     m = json.load(open(os.path.join(VERIF, "seeded", sid, "meta.json")))
     c = m.get("caught_by_check") or ""
     kind = "as stood" if c == "yes" else "after strengthening" if c.startswith("after") else \
-        "corpus only" if "corpus" in c else "not reliably detected" if "1 scenario in" in c else "outside every quantifier"
+        "corpus only" if "corpus" in c else "not reliably detected" if "1 scenario in" in c else \
+        "outside the fault model" if "fault model" in c else "outside every quantifier"
     w = sid.split("-")[1]
     waves.setdefault(w, collections.Counter())[kind] += 1
     tot[kind] += 1
